@@ -93,17 +93,17 @@ pub proof fn lemma_pre_split(s: Seq<u64>, k: int, n: int)
     }
 }
 
-// bit i of the 8-limb value is bit (i mod 64) of limb i / 64
-pub proof fn lemma_bit_of(s: Seq<u64>, i: nat)
-    requires s.len() == 8, i < 512,
-    ensures ((pre(s, 8) / p2(i)) % 2 == 1) == limb_bit(s[(i / 64) as int], (i % 64) as u64),
+// bit i of an L-limb value is bit (i mod 64) of limb i / 64
+pub proof fn lemma_bit_of(s: Seq<u64>, L: int, i: nat)
+    requires s.len() == L, i < 64 * L,
+    ensures ((pre(s, L) / p2(i)) % 2 == 1) == limb_bit(s[(i / 64) as int], (i % 64) as u64),
 {
     let k = (i / 64) as int; let j = (i % 64) as nat;
-    let V = pre(s, 8); let lo = pre(s, k); let P = pw(k);
-    lemma_pre_split(s, k, 8);
-    let t = s.subrange(k, 8);
-    lemma_pre_split(t, 1, 8 - k);
-    let T2 = pre(t.subrange(1, 8 - k), 8 - k - 1);
+    let V = pre(s, L); let lo = pre(s, k); let P = pw(k);
+    lemma_pre_split(s, k, L);
+    let t = s.subrange(k, L);
+    lemma_pre_split(t, 1, L - k);
+    let T2 = pre(t.subrange(1, L - k), L - k - 1);
     let x = s[k] as nat;
     reveal_with_fuel(pre, 2);
     assert(pre(t, 1) == t[0] as nat * pw(0));
@@ -176,26 +176,6 @@ pub proof fn lemma_numbits(s: Seq<u64>, bits: nat)
             requires pre(s, k) < P, (x as nat) < p2(j + 1), (x as nat) + 1 <= p2(j + 1);
         assert(p2(j + 1) * P == P * p2(j + 1)) by(nonlinear_arith);
     }
-}
-
-pub proof fn lemma_low_limb(s: Seq<u64>, d: Seq<u64>)
-    requires s.len() == 4, d =~= s.update(0, d[0]),
-    ensures pre(s, 4) % 2 == s[0] as nat % 2,
-            pre(d, 4) as int == pre(s, 4) as int + d[0] as int - s[0] as int,
-{
-    lemma_pw_values(); reveal_with_fuel(pre, 5);
-    let (s0, s1, s2, s3) = (s[0] as nat, s[1] as nat, s[2] as nat, s[3] as nat);
-    assert(s[0] as nat * pw(0) == s0);
-    assert(d[0] as nat * pw(0) == d[0] as nat);
-    assert(pre(s, 4) == s0 + s1 * pw(1) + s2 * pw(2) + s3 * pw(3));
-    assert(pre(d, 4) == d[0] as nat + s1 * pw(1) + s2 * pw(2) + s3 * pw(3));
-    let h = s1 * 0x8000_0000_0000_0000nat + s2 * 0x8000_0000_0000_0000_0000_0000_0000_0000nat + s3 * 0x8000_0000_0000_0000_0000_0000_0000_0000_0000_0000_0000_0000nat;
-    assert(s1 * pw(1) + s2 * pw(2) + s3 * pw(3) == 2 * h) by(nonlinear_arith)
-        requires pw(1) == 0x1_0000_0000_0000_0000nat, pw(2) == 0x1_0000_0000_0000_0000_0000_0000_0000_0000nat,
-                 pw(3) == 0x1_0000_0000_0000_0000_0000_0000_0000_0000_0000_0000_0000_0000nat,
-                 h == s1 * 0x8000_0000_0000_0000nat + s2 * 0x8000_0000_0000_0000_0000_0000_0000_0000nat + s3 * 0x8000_0000_0000_0000_0000_0000_0000_0000_0000_0000_0000_0000nat;
-    lemma_mod_multiples_vanish(h as int, s0 as int, 2);
-    assert((2 * h + s0) % 2 == s0 % 2);
 }
 
 // one step of the long division on the remainder
@@ -281,7 +261,7 @@ proof {
     assert((l | 1) == l + 1 && (l & !1u64) == l) by(bit_vector) requires l % 2 == 0;
     lemma_low_limb(r1.0.0@, r.0.0@);
     assert(U(r) == U(r1) + b);
-    lemma_bit_of(self.0.0@, i as nat);
+    lemma_bit_of(self.0.0@, 8, i as nat);
     lemma_pre_bound(r.0.0@, 4);
 }
 let ghost r2 = r;
@@ -315,6 +295,63 @@ if q.is_some() && (q.unwrap().0.ge_(&modulo.0))
 else
 {
 (q, r)
+}
+}
+//@END
+}
+
+// ---- bit access used by scalar multiplication and exponentiation (src/u256.rs)
+impl B256 {
+    #[verifier::external_body]
+    pub fn get_bit(&self, i: usize) -> (r: bool)
+        ensures i < 256 ==> r == limb_bit(self.0@[(i / 64) as int], (i % 64) as u64)
+    { unimplemented!() }
+}
+pub open spec fn bit_of(x: U256, n: nat) -> bool { (U(x) / p2(n)) % 2 == 1 }
+pub struct BitIterator<'a> { pub int: &'a U256, pub n: usize }
+
+impl U256 {
+//@BEGIN u256_get_bit
+pub fn get_bit(&self, n: usize) -> (res: Option<bool>)
+    ensures n >= 256 ==> res.is_none(), n < 256 ==> res == Some(bit_of(*self, n as nat)),
+{
+if n >= 256
+{
+None
+}
+else
+{
+proof { lemma_bit_of(self.0.0@, 4, n as nat); }
+Some(self.0.get_bit(n))
+}
+}
+//@END
+//@BEGIN u256_bits
+pub fn bits(&self) -> (res: BitIterator)
+    ensures res.n == 256, *res.int == *self,
+{
+BitIterator
+{
+int: self, n: 256
+}
+}
+//@END
+}
+impl<'a> BitIterator<'a> {
+//@BEGIN bititer_next
+pub fn next(&mut self) -> (res: Option<bool>)
+    requires old(self).n <= 256,
+    ensures old(self).n == 0 ==> res.is_none() && final(self).n == 0,
+            old(self).n > 0 ==> final(self).n == old(self).n - 1 && res == Some(bit_of(*old(self).int, (old(self).n - 1) as nat)),
+            *final(self).int == *old(self).int,
+{
+if self.n == 0
+{
+None
+}
+else
+{
+self.n -= 1; self.int.get_bit(self.n)
 }
 }
 //@END
